@@ -115,4 +115,38 @@ theorem ofInt_fin (n : ℤ) (h : |n| < 2 ^ 24) : (ofInt n).isFin = true ∧ (ofI
   have := round_fin false this
   simpa [ofInt, hrn] using this
 
+/-! ### casts to u32 -/
+
+theorem toU32_fin_le (r : ℚ) (nz : Bool) (N : ℕ) (h : r ≤ N) (hN : N < 2 ^ 32) : toU32 (.fin r nz) ≤ N := by
+  simp only [toU32]
+  split
+  · omega
+  · rename_i hneg
+    have h0 : 0 ≤ r := not_lt.mp hneg
+    have hf : r.floor.toNat ≤ N := by
+      have : r.floor ≤ (N:ℤ) := by
+        have h' : (⌊r⌋ : ℤ) ≤ ⌊(N:ℚ)⌋ := Int.floor_le_floor h
+        have h'' : (⌊r⌋ : ℤ) ≤ (N:ℤ) := by simpa using h'
+        exact h''
+      omega
+    split <;> omega
+
+/-- truncating a rounded result that is known not to exceed a representable integer bound -/
+theorem toU32_round_le (x : ℚ) (zs : Bool) (N : ℕ) (hx : x ≤ N) (hlo : -(2:ℚ) ^ (127:ℤ) ≤ x) (hN : N < 2 ^ 24) :
+    toU32 (round x zs) ≤ N := by
+  have hrepN : Rep (N:ℚ) := by
+    have := rep_int (n := (N:ℤ)) (by rw [abs_of_nonneg (by positivity)]; exact_mod_cast hN)
+    simpa using this
+  have hr : rnd x ≤ N := rnd_le_of_le hx hrepN
+  have hN' : (N:ℚ) ≤ 2 ^ (127:ℤ) := by
+    have : (N:ℚ) < 2 ^ 24 := by exact_mod_cast hN
+    exact le_trans (le_of_lt this) (by norm_num)
+  have hov : |rnd x| < 2 ^ (128:ℤ) := by
+    apply no_overflow
+    rw [abs_le]; exact ⟨hlo, le_trans hx hN'⟩
+  rw [round_def, qabs_eq, pow2_eq, if_neg (not_le.mpr hov)]
+  split
+  · exact toU32_fin_le 0 _ N (by positivity) (by omega)
+  · exact toU32_fin_le _ _ N hr (by omega)
+
 end F32
